@@ -19,6 +19,9 @@ pub struct C03 {
     /// emulated lock contention: a caller may be polled from inside another caller's critical
     /// section - including from inside the announcement of a transition (see trv_core::nest)
     pub nested: usize,
+    /// the breaker may also be opened through the health-check integration
+    /// (`trigger_unhealthy`, which opens it from a spawned task): Ctl(2)
+    pub health_trigger: bool,
 }
 
 /// One poll of an async view of the breaker: None if it would have to wait - the circuit
@@ -47,6 +50,8 @@ pub struct X {
     saw_open_reject: bool,
     saw_inflight_when_opened: bool,
     saw_pending_fallback: bool,
+    /// before the current action: a state view says Open although no opening was announced
+    pre_open_unannounced: bool,
 }
 
 fn t_open(tl: &TransitionLog) -> Option<u64> {
@@ -66,7 +71,7 @@ impl Scenario for C03 {
         "C03"
     }
     fn label(&self) -> String {
-        format!("c03 {} callers={}", self.cfg.label(), self.callers)
+        format!("c03 {} callers={}{}", self.cfg.label(), self.callers, if self.health_trigger { " opened-by-trigger_unhealthy" } else { "" })
     }
     fn callers(&self) -> usize {
         self.callers
@@ -78,7 +83,7 @@ impl Scenario for C03 {
         let nest = if self.nested > 0 { Some(Nest::new()) } else { None };
         let (svc, tl, gate) = build_full(&self.cfg, w.inner.clone(), w.origin, nest.clone());
         let other = svc.clone_box();
-        X { pre_queue: false, nest, gate, svc, other, tl, pre_open: false, pre_calls: 0, pre_had_inner: false, saw_open_reject: false, saw_inflight_when_opened: false, saw_pending_fallback: false }
+        X { pre_queue: false, nest, gate, svc, other, tl, pre_open: false, pre_calls: 0, pre_had_inner: false, saw_open_reject: false, saw_inflight_when_opened: false, saw_pending_fallback: false, pre_open_unannounced: false }
     }
     fn arrive(&self, w: &mut World, x: &mut X, c: usize, _v: u8) {
         // every caller works on its own clone
@@ -97,6 +102,9 @@ impl Scenario for C03 {
     fn ctl_actions(&self, _w: &World, x: &X) -> Vec<u8> {
         // 0: force_open through another clone; 1: let pending fallback futures complete
         let mut v = vec![0];
+        if self.health_trigger {
+            v.push(2);
+        }
         if self.cfg.fallback_gated && !*x.gate.open.lock().unwrap() {
             v.push(1);
         }
@@ -119,6 +127,11 @@ impl Scenario for C03 {
             }
             return;
         }
+        if ctl == 2 {
+            // (the opening happens in a spawned task, which runs when the runtime next does)
+            w.block_on(async { x.other.trigger_unhealthy() });
+            return;
+        }
         // (a breaker whose lock is held across an await would make this wait for ever)
         if poll_view(x.other.metrics()).is_some() {
             w.block_on(x.other.force_open());
@@ -130,6 +143,7 @@ impl Scenario for C03 {
             Action::Tick => c.ticks < self.max_ticks,
             Action::Drop(_) => c.drops < self.max_drops,
             Action::Ctl(0) => h.iter().filter(|a| matches!(a, Action::Ctl(0))).count() < self.max_force,
+            Action::Ctl(2) => !h.iter().any(|a| matches!(a, Action::Ctl(2))),
             Action::Ctl(c) if *c >= 10 => h.iter().filter(|a| matches!(a, Action::Ctl(c) if *c >= 10)).count() < self.nested,
             Action::Ctl(_) => true,
             _ => true,
@@ -162,6 +176,9 @@ impl Scenario for C03 {
         // a new call through.
         x.pre_open = t_open(&x.tl).map_or(false, |t| now < t.saturating_add(self.cfg.wait_ms));
         x.pre_calls = w.inner.lock().unwrap().calls.len();
+        // a view that says Open is an observation too: if no opening has been announced to the
+        // listeners, the views run ahead of what admission checks
+        x.pre_open_unannounced = x.svc.state_sync() == CircuitState::Open && x.tl.lock().unwrap().last().map(|t| t.3) != Some(CircuitState::Open);
         x.pre_had_inner = match a {
             Action::Poll(c) => has_inner(w, *c as usize),
             _ => false,
@@ -211,6 +228,9 @@ impl Scenario for C03 {
                 format!("breaker observed Open (opened at {:?}, wait {}ms, now {}ms) but action {} started an inner call", t_open(&x.tl), self.cfg.wait_ms, w.now_ms(), a.enc()),
             ));
         }
+        if x.pre_open_unannounced && calls_now > x.pre_calls {
+            out.push(Viol::new("inner_call_while_observed_open", site, format!("state_sync() reported Open before action {} (no opening had been announced to the listeners), and the action started an inner call", a.enc())));
+        }
         if let Action::Poll(c) = a {
             let c = *c as usize;
             if x.pre_open && !x.pre_had_inner && !x.pre_queue {
@@ -247,7 +267,9 @@ impl Scenario for C03 {
         }
         let tl = x.tl.lock().unwrap();
         if tl.iter().any(|t| t.3 == CircuitState::Open) {
-            if h.iter().any(|a| matches!(a, Action::Ctl(_))) {
+            if h.iter().any(|a| matches!(a, Action::Ctl(2))) {
+                v.push("opened_by_trigger_unhealthy");
+            } else if h.iter().any(|a| matches!(a, Action::Ctl(_))) {
                 v.push("opened_by_force_open");
             } else {
                 v.push("opened_by_recorded_outcomes");
